@@ -14,7 +14,7 @@ import (
 func init() {
 	register("C08", &ruleSet{
 		run:    runC08,
-		floors: map[string]int{"O1": 2, "O2": 1, "O3": 2, "O4": 3, "O5": 3, "O6": 3, "O7": 3},
+		floors: map[string]int{"O1": 2, "O2": 1, "O3": 2, "O4": 3, "O5": 3, "O6": 3, "O7": 3, "O8": 1},
 		explain: "Decides necessary sign conditions of 'more latency never means more limit' for Vegas and Gradient (Gradient2 is declined: its long-term average also absorbs the " +
 			"sample, so the quotient long/short has mixed polarity syntactically; threshold ordering, rounding, probe and baseline-lowering samples are excluded): (O1) polarity: " +
 			"the control signal is monotone in the sample RTT in the right direction - Vegas's queue estimate is non-decreasing in rtt, and on every Gradient path the stored " +
@@ -60,6 +60,7 @@ type polCtx struct {
 	rtt   ssa.Value
 	memo  map[ssa.Value]int
 	notes []string
+	ident map[ssa.Value]bool // results of latest-value measurements: the value handed in, unchanged (O8)
 }
 
 func (c *polCtx) nonNeg(v ssa.Value) bool {
@@ -96,6 +97,9 @@ func (c *polCtx) pol(v ssa.Value, depth int) int {
 		// results of measurement calls: constant in rtt under the property's proviso (the sample does not lower the baseline)
 		if call, ok := x.Tuple.(*ssa.Call); ok && call.Common().IsInvoke() {
 			res = polConst
+			if c.ident[x] && len(call.Call.Args) == 1 {
+				res = c.pol(call.Call.Args[0], depth+1)
+			}
 		}
 	case *ssa.Call:
 		name, args := c.pr.mathCall(x)
@@ -182,6 +186,8 @@ func runC08(p *Prog, l *Ledger) {
 	})
 	l.Rule("O7", "the baseline is not forgotten because of the sample's RTT: a reset or replacement of a baseline measurement on the sample path is not control-dependent on a test that reads the sample's RTT together with the algorithm's state (the slower twin would be judged against a fresh baseline, the faster one against the old one)")
 	c08ResetIndependentOfRTT(p, l)
+	l.Rule("O8", "Gradient2: with the long-term average taken as given (the proviso of O1), every estimate stored on a non-drop path is a non-increasing function of the instantaneous RTT, which a latest-value measurement (C18/O4) hands back unchanged")
+	c08Gradient2(p, l)
 	smoothSeen := map[string]bool{}
 	for _, af := range algoFuncs(p, l) {
 		name := af.A.T.Obj().Name()
